@@ -144,3 +144,9 @@ ADDENDA5 = {'C03': ' A signed name may be followed by more (-x + 1); a tenth of 
 for _k, _x in ADDENDA5.items():
     _a = CLAIMED[_k]
     CLAIMED[_k] = (_a[0], _a[1] + _x, _a[2], _a[3])
+
+# additions after the eighth wave
+ADDENDA6 = {'C02': ' A sixth of the trees run under a random number format (the value must not change).', 'C03': ' Plain words may stand in front of a number-valued name (big house + big rent).', 'C05': ' A third of the phrase sums hold every X in a name of its own.', 'C13': ' Another operand may stand in front of N without an operator.', 'C14': " The one-line form 'd at T as unix' (date held in a name) must agree with the two-step form.", 'C18': ' A third of the downgrade codes mention the placeholder twice.', 'C19': ' An amount per unit word inside arithmetic (25/hour * 14) is compared across the languages.'}
+for _k, _x in ADDENDA6.items():
+    _a = CLAIMED[_k]
+    CLAIMED[_k] = (_a[0], _a[1] + _x, _a[2], _a[3])
